@@ -401,6 +401,36 @@ def run(tier: str, seed: int) -> int:
                         rep.sample(dict(inp, got=str(got), store_after=real.key()))
         rep.sections["multi_object_cells"] = c3
 
+        # ---------------- ordinary state names that merely resemble the root keywords ----------------------------
+        c4 = 0
+        layout = layouts["vm/image"]
+        names = ["reboot", "chroot", "first_boot", "root_fs", "bootstrap", "xroot", "boot2", "Root", "0rootx", "root.1"] if not q else ["reboot", "chroot", "bootstrap", "root_fs"]
+        nobjs = [o for o in layout.objects() if o[3] in ("vms", "images")]
+        nkeys = [k for _, _, _, _, k in layout.objects()]
+        for (otype, oname, sfx, level, okey) in nobjs:
+            for name in names:
+                for op, modes in (("get", ("ra", "ii")), ("set", ("ff", "af")), ("unset", ("fi", "fa")), ("check", (None,)), ("push", ("af", "ff")), ("pop", ("ra", "fa"))):
+                    for mode in modes:
+                        for present in (True, False):
+                            c4 += 1
+                            init = Store({k: {"keep"} for k in nkeys}, nkeys)
+                            if present:
+                                init.states[okey].add(name)
+                            model, real = init.copy(), init.copy()
+                            if op in ("push", "pop"):
+                                exp = model_pushpop(model, op, okey, name, mode)
+                            else:
+                                exp = model_op(model, op, okey, name, mode or "xx", "rf")
+                            got, calls = run_real(ss, Mem, env, layout, real, op, [(sfx, name, mode)], {})
+                            rep.transitions += 1
+                            if got != exp or real.key() != model.key():
+                                rep.violation(f"{op} of the ordinary state {name!r} of {oname} (mode {mode}, state {'present' if present else 'absent'}): outcome {got} store {real.key()}; "
+                                              f"the policy table gives {exp} store {model.key()}",
+                                              {"op": op, "object": list(okey), "state": name, "mode": mode, "present": present, "calls": [list(c) for c in calls]},
+                                              {"part": "state-names", "op": op, "expected": str(exp), "got": str(got)[:20]})
+                            rep.distinct.add(("name", okey, name, op, mode, present))
+        rep.sections["state_name_cells"] = c4
+
         # ---------------- sequences: BFS from every initial store ------------------------------
         depth = 2 if q else 3
         layout = layouts["vm/image"] if q else layouts["net/vm/image"]
